@@ -35,10 +35,10 @@ were; `clobber` empties the latest result the caller was handed and repeats the 
   seeded C12_E  unordered single-index search returns the index's own answer object   MISSED before, now caught
   seeded C12_F  ordered mode treats a query VALUE of None as "not queried"            MISSED before, now caught
   M12a KeywordIndex.search: 'or' over one word returns the posting itself (ordered mode aliasing that is NOT of
-       the D24 shape)                                                                            caught (recheck)
+       the live-view shape)                                                                            caught (recheck)
   M12b unordered mode skips '' / [] / () / {} query values                                       caught
   M12c FieldIndex.apply drops None members of a query list of more than one element              caught
-Known finding D24 (found with `recheck` on the unchanged tree): ordered mode, one applicable keyword/facet term, one
+Provenance, not a finding (found with `recheck` on the unchanged tree; DESIGN 12.2): ordered mode, one applicable keyword/facet term, one
 word under 'and', no sort index -> `ids` IS the index's posting set (see known_findings.json; witnesses()).
 """
 from lib.core import exc_name, idset
@@ -76,7 +76,7 @@ RULE = ("catalogs of 1-5 indexes (field, keyword, facet; attribute-name and call
         "empty list/tuple, dict without query: quick seed 0, 8004 cases: 3550 terms with a None/0 value alone and "
         "1649 with None inside a list, half of each in the ordered mode; 22431 empty-list/dict/'' terms). Result "
         "stability: `recheck` after 15% of the writes, before the final observations and after 1-4 extra writes at "
-        "the end (45538 rechecks: 44464 stable, 1074 changed in the shape of known finding D24), `clobber` after 5% "
+        "the end (45538 rechecks: 44464 stable, 1074 were live views of a stored posting set by the provenance model and are skipped), `clobber` after 5% "
         "of the searches followed by the same search and an observation (3657). "
         "non-trivial = some index becomes non-empty and a search over >= 2 indexes returns a non-empty set")
 LEVEL_TEXT = ("Lean 4 proof: for every catalog (any list of field/keyword/facet indexes, arbitrary discriminator "
@@ -770,7 +770,7 @@ class Impl(object):
 
     # ---- result stability: what a search handed out belongs to the caller
     def alias_shape(self, o, kw):
-        """'D24' if this search has the shape of known finding D24 (ordered mode, exactly one applicable term, on a
+        """'live:…' if this search hands out a stored container by the provenance model (ordered mode, exactly one applicable term, on a
         keyword/facet index, a single word under operator 'and', no sort index: apply_intersect(query, None)
         returns KeywordIndex.search's `IF.intersection(None, posting)`, which IS the posting), else a description"""
         mode = "ordered" if "index_query_order" in o else "unordered"
@@ -785,7 +785,7 @@ class Impl(object):
                 q = q.get("query")
             words = [q] if isinstance(q, str) else list(q) if isinstance(q, (list, tuple)) else None
             if oper == "and" and words is not None and len(words) == 1:
-                return "D24:" + tag
+                return "live:" + tag
         return tag
 
     def keep(self, res, o, kw):
@@ -799,7 +799,7 @@ class Impl(object):
     def recheck(self):
         bad = []
         for k in self.kept:
-            if k["tag"].startswith("D24"):
+            if k["tag"].startswith("live:"):
                 # provenance model (Alias.lean, c18_keyword_search_one_prov): a one-word 'and' search of a
                 # keyword/facet index returns the STORED posting set, and ordered mode passes it through
                 # (apply_intersect(query, None)); such a result is a live view by construction
@@ -813,8 +813,8 @@ class Impl(object):
     def clobber(self):
         """the caller empties (or, failing that, adds to) the latest result it was handed - its own object"""
         for k in reversed(self.kept):
-            if k["tag"].startswith("D24"):
-                continue                # known finding D24: that object is the index's posting set
+            if k["tag"].startswith("live:"):
+                continue                # that object IS the index's posting set (provenance: stored)
             self.kept = [x for x in self.kept if x["obj"] is not k["obj"]]
             try:
                 k["obj"].clear()
@@ -935,7 +935,7 @@ def features(case, outs):
         elif op == "reset":
             f.append("reset")
         elif op == "recheck":
-            f.append("recheck:" + ("stable" if o == "stable" else "changed-D24-shape" if "D24:" in o else "changed"))
+            f.append("recheck:" + ("stable" if o == "stable" else "changed-live-view-shape" if "live:" in o else "changed"))
         elif op == "clobber":
             f.append("clobber")
         elif op == "add":
